@@ -66,11 +66,14 @@ def gen_case(rnd, force_all=False, force_shared=False):
     for r in rxns:
         for s, m in Counter(r["reactants"]).items():
             maxm[s] = max(maxm.get(s, 0), m)
-    for j in range(6):
-        kind = "int" if j < 4 else "real"
+    for j in range(7):
+        kind = "int" if (j < 4 or j == 6) else "real"
         x = {}
         for s in species:
-            if kind == "int":
+            if j == 6:
+                # large copy numbers: the falling factorial of thousands of molecules is still an exact integer in a double
+                x[s] = rnd.choice([rnd.randint(1000, 5000), rnd.randint(10 ** 4, 10 ** 6), 65535, 65536, 2 ** 31 - 1, rnd.randint(1, 6)])
+            elif kind == "int":
                 m = maxm.get(s, 1)
                 x[s] = rnd.choice([0, max(m - 1, 0), m, m + 1, rnd.randint(0, 6), rnd.randint(1, 6)])
             else:
